@@ -107,6 +107,11 @@ pub fn gen_pcm(kind: &str, rng: &mut Rng, channels: usize, bps: u32, frames: usi
                     _ => { let step = (hi / 64).max(1); walk[c] = (walk[c] + rng.range(-step, step)).clamp(lo, hi); walk[c] }
                 },
                 "noise" => rng.range(lo, hi),
+                // a quiet high-pitched tone with a little noise: linear prediction does far better than the fixed predictors
+                "hitone" => {
+                    let f = 0.23 + 0.013 * c as f64;
+                    (((i as f64 * f * std::f64::consts::TAU).sin() * 300.0f64.min(hi as f64 / 2.0)) as i64 + rng.range(-2.max(lo), 2.min(hi))).clamp(lo, hi)
+                }
                 // anti-correlated channels reaching both rails: odd channels are the complement of the channel before them,
                 // so the side channel (left - right) spans its whole range, e.g. 2^bps - 1
                 "anti" => {
